@@ -372,6 +372,27 @@ func runC10(c *Ctx) {
 		}
 	}
 
+	// ---- O9: the same for sub-groups looked up by the name a POD carries. A pod's sub-group label is free text; the
+	// snapshot files an unlabelled pod under "default" but keeps the raw (possibly empty, possibly unknown) name in
+	// the pod, so a lookup by task.SubGroupName can miss even in a well-formed job.
+	nSub := 0
+	for _, fn := range p.AllFuncs {
+		if isTestdataOrMock(fn) || !strings.HasPrefix(relPkg(funcPkgPath(fn)), "pkg/scheduler") {
+			continue
+		}
+		for _, elemT := range []string{"elem:PodSet", "elem:SubGroupSet"} {
+			for _, s := range findNilMapDerefs(fx, fn, elemT) {
+				nSub++
+				if termOf(s.Lookup.Index).lastField() != "SubGroupName" {
+					continue
+				}
+				c.Viol("O9", "NILMAP", funcKey(fn)+": deref of the sub-group looked up by the pod's SubGroupName", instrPos(s.Deref),
+					"a sub-group looked up by the name a pod carries is used without an ok / nil test ("+s.How+" at "+p.Pos(instrPos(s.Deref))+"): a pod without a sub-group label (filed under \"default\") or with an unknown one makes the action panic, in every cycle")
+			}
+		}
+	}
+	c.Hold("O9", "NILMAP", fmt.Sprintf("%d unguarded dereferences of looked-up sub-groups in pkg/scheduler, none keyed by a pod's SubGroupName", nSub), 0, "lookups by task.SubGroupName are guarded")
+
 	// ---- O5: a value that is nil on some path (a merge with a nil constant) is not handed, unguarded, to a function
 	// that dereferences the corresponding parameter without testing it
 	nNilPhi := 0
